@@ -67,6 +67,16 @@ pub struct RunStats {
     pub blocked_handoffs: u64,
     #[serde(default)]
     pub clock_jumps: u64,
+    /// steps at which a disk fault was due / what was actually applied (nothing while the
+    /// library leaves no file behind)
+    #[serde(default)]
+    pub disk_fault_points: u64,
+    #[serde(default)]
+    pub disk_faults_applied: BTreeMap<String, u64>,
+    #[serde(default)]
+    pub fs_write_fault_scenarios: u64,
+    #[serde(default)]
+    pub fs_write_faults_fired: u64,
     #[serde(default)]
     pub teardown_ops: u64,
     /// threads the library itself started inside a call and that the simulator took under its
@@ -664,6 +674,12 @@ fn sim_thread_inner(sh: Arc<Shared>, me: usize) {
                     if step.clock_jump_ms > 0 && crate::procs::clock_advance(step.clock_jump_ms as i64 * 1_000_000) {
                         st.stats.clock_jumps += 1;
                     }
+                    if step.disk_fault != 0 {
+                        st.stats.disk_fault_points += 1;
+                        if let Some(k) = crate::procs::damage_private_tmp(step.disk_fault) {
+                            *st.stats.disk_faults_applied.entry(k.to_string()).or_insert(0) += 1;
+                        }
+                    }
                 }
             }
             if probe && prev_view.is_some() {
@@ -837,6 +853,14 @@ pub fn run(scen: &Scenario, schedule: Schedule, tracing: bool) -> RunOut {
         Schedule::Lenient(l) => Some((l, 0usize, true)),
     };
     let mut stats = RunStats::default();
+    // write-path faults of this scenario (seed 0 = none): set in any case, so that a scenario
+    // without them is not hit by the previous one's
+    let fired_before = crate::procs::fs_faults_fired();
+    // (the worlds of a cold-world chain get theirs from the environment instead)
+    let fs_seed = if scen.fs_fault != 0 { scen.fs_fault } else { std::env::var("A5SIM_FS_FAULT").ok().and_then(|s| s.parse().ok()).unwrap_or(0) };
+    if crate::procs::fs_fault_set(fs_seed) && fs_seed != 0 {
+        stats.fs_write_fault_scenarios = 1;
+    }
     stats.yield_hits = vec![0; N_SITES];
     stats.yield_preempts = vec![0; N_SITES];
     let st = State {
@@ -1014,6 +1038,8 @@ pub fn run(scen: &Scenario, schedule: Schedule, tracing: bool) -> RunOut {
         }
     }
     let mut st = sh.st.lock().unwrap_or_else(|e| e.into_inner());
+    st.stats.fs_write_faults_fired = crate::procs::fs_faults_fired().saturating_sub(fired_before);
+    crate::procs::fs_fault_set(0);
     if let Some((list, pos, lenient)) = &st.list {
         if !*lenient && st.harness_error.is_none() && st.violation.is_none() && !st.exhausted && *pos != list.len() {
             st.harness_error = Some(format!("replay consumed {} of {} decisions", pos, list.len()));
